@@ -31,3 +31,42 @@ Definition spec_decode (bs : list N) : option cm_abs :=
        | _ => None
        end.
 
+
+(* ---------- C13: the images a foreign (C++) writer can emit ----------
+   Count-Min exists in C++ only (count_min_sketch<W>::serialize, W = 8-byte weights).  The writer
+   fills the unused fields with zeros, but they are *unused*: a conforming reader must ignore
+   whatever they hold, so the variant carries their contents.  An empty sketch (total weight 0)
+   is written as the 16-byte header with flag bit 0 set and no table. *)
+Record cm_variant := mkVar {
+  v_unused32 : N;      (* bytes 4..7  *)
+  v_unused8  : N;      (* byte 15     *)
+  v_flag_hi  : N       (* flag bits 1..7 (undefined by the format), as a multiple of 2 *)
+}.
+
+Definition variant_ok (v : cm_variant) : Prop :=
+  v_unused32 v < 4294967296 /\ v_unused8 v < 256 /\ v_flag_hi v < 256 /\ v_flag_hi v mod 2 = 0.
+
+Definition canonical_variant : cm_variant := mkVar 0 0 0.
+
+Definition spec_encode (v : cm_variant) (a : cm_abs) : list N :=
+  [2; 1; 18; (if a_total a =? 0 then 1 else 0) + v_flag_hi v]
+  ++ le_bytes 4 (v_unused32 v)
+  ++ le_bytes 4 (a_nb a) ++ [a_nh a] ++ le_bytes 2 (a_sh a) ++ [v_unused8 v]
+  ++ (if a_total a =? 0 then []
+      else le_bytes 8 (a_total a) ++ flat_map (le_bytes 8) (a_cells a)).
+
+(* abstract states a writer can hold for a counter type with maximum mx and seed hash sh *)
+Definition abs_ok (mx sh : N) (a : cm_abs) : Prop :=
+  1 <= a_nh a < 256 /\ 3 <= a_nb a < 4294967296 /\ a_nh a * a_nb a < 1073741824 /\
+  a_sh a = sh /\ sh < 65536 /\ mx < 18446744073709551616 /\
+  a_total a <= mx /\ Forall (fun c => c <= mx) (a_cells a) /\
+  length (a_cells a) = N.to_nat (a_nh a * a_nb a) /\
+  (a_total a = 0 -> a_cells a = repeat 0 (N.to_nat (a_nh a * a_nb a))).
+
+(* boolean version, for the oracle of the correspondence check *)
+Definition abs_okb (mx sh : N) (a : cm_abs) : bool :=
+  (1 <=? a_nh a) && (a_nh a <? 256) && (3 <=? a_nb a) && (a_nb a <? 4294967296) &&
+  (a_nh a * a_nb a <? 1073741824) && (a_sh a =? sh) && (a_total a <=? mx) &&
+  forallb (fun c => c <=? mx) (a_cells a) &&
+  Nat.eqb (length (a_cells a)) (N.to_nat (a_nh a * a_nb a)) &&
+  (negb (a_total a =? 0) || forallb (fun c => c =? 0) (a_cells a)).
